@@ -17,5 +17,5 @@ for d in sorted(os.listdir(os.path.join(ROOT, "seeded")), key=key):
     meta = json.load(open(os.path.join(p, "meta.json")))
     out, caught = res.get(d, ("not run", []))
     if meta.get("verdict", "").startswith("not caught by design"):
-        out = "not a violation (see meta.json)"
+        out = "not a violation on this tree (see meta.json)"
     print("| %s | %s | %s | %s |" % (d, ", ".join(files), out, ", ".join(caught)))
